@@ -71,8 +71,7 @@ HX void hx_managed_destroy(uint64_t) {
    ManagedThread* mt = new (mt_storage) ManagedThread([] { started.store(1, std::memory_order_release); finished.store(1, std::memory_order_release); });
    mt->~ManagedThread();
    vs_assert(finished.load(std::memory_order_acquire) == 1, "the destructor of a managed thread waits until the thread function has returned");
-   volatile uint64_t* w = reinterpret_cast<volatile uint64_t*>(mt_storage);      // the storage is re-used
-   for (unsigned i = 0; i < sizeof mt_storage / 8; ++i) w[i] = 0xAAAAAAAAAAAAAAAAull;
+   *reinterpret_cast<volatile unsigned char*>(mt_storage) = 0xAA;               // the storage (the byte of the activity flag) is re-used
 }
 
 // ---- C09: two independent handlers used concurrently (different list separators, constraints, checks)
